@@ -69,6 +69,8 @@ class Explorer:
     s.max_decisions = max_decisions
     s.deadline = None if timeout_s is None else time.time() + timeout_s
     s.npaths = 0
+    s.nconc = 0
+    s.max_concretisations = 3000
 
   # -- solver ----------------------------------------------------------------
   def feasible(s, *conds):
@@ -135,6 +137,10 @@ class Explorer:
         s.trail.append(ent)
         taken = True
         STATS.concretisations += 1
+        s.nconc += 1
+        if s.nconc > s.max_concretisations:
+          raise BudgetExceeded(f"more than {s.max_concretisations} concretisations (a symbolic value reached a C boundary "
+                               "on a large domain; enumeration is not this technique)")
       s.pos += 1
       s._note_decision()
       s.pc.append(c if taken else z3.Not(c))
@@ -210,6 +216,9 @@ _B0 = z3.BitVecVal(0, 2)
 
 class SymBool:
   __slots__ = ('b',)
+  # Python-level type tests (`x.__class__ is int`, builtin isinstance) see the type the proxy stands for;
+  # C-level consumers are not fooled and must go through __index__ (concretise by fork).
+  __class__ = property(lambda s: bool)
 
   def __init__(s, b): s.b = b
   def __bool__(s): return branch(s.b)
@@ -260,11 +269,17 @@ for _n in ['__add__', '__radd__', '__sub__', '__rsub__', '__mul__', '__rmul__', 
   setattr(SymBool, _n, _fwd(_n))
 
 
+def _cint(x):
+  """a real (concrete) python int / bool / int subclass -- never a proxy (proxies spoof __class__)"""
+  t = type(x)
+  return t is not SymInt and t is not SymBool and _isinstance(x, _int)
+
+
 def lift(x):
   t = type(x)
   if t is SymInt: return x
   if t is SymBool: return x.as_int()
-  if _isinstance(x, _int):       # bool, int and int subclasses
+  if _cint(x):       # bool, int and int subclasses
     x = _int(x)
     return SymInt(z3.BitVecVal(x, x.bit_length() + 1), x >= 0)
   return None
@@ -272,6 +287,7 @@ def lift(x):
 
 class SymInt:
   __slots__ = ('e', 'nn')
+  __class__ = property(lambda s: _int)
 
   def __init__(s, e, nn=False):
     s.e = e
@@ -321,7 +337,7 @@ class SymInt:
     oo = lift(o)
     if oo is None: return NotImplemented
     # concrete non-negative mask: the result is non-negative and fits the mask's width
-    if _isinstance(o, _int) and o >= 0:
+    if _cint(o) and o >= 0:
       o = _int(o)
       k = o.bit_length()
       if k == 0: return 0
@@ -361,7 +377,7 @@ class SymInt:
     return lo_
 
   def __lshift__(s, o):
-    if _isinstance(o, _int):
+    if _cint(o):
       o = _int(o)
       if o < 0: raise ValueError("negative shift count")
       if s.w + o > MAXW: raise Unsupported("left shift wider than %d bits" % MAXW)
@@ -382,7 +398,7 @@ class SymInt:
     return o.__lshift__(s)
 
   def __rshift__(s, o):
-    if _isinstance(o, _int):
+    if _cint(o):
       o = _int(o)
       if o < 0: raise ValueError("negative shift count")
       if o == 0: return s
